@@ -77,7 +77,7 @@ def registry(cid, tier='thorough'):
         reg.add(Contract(P + 'point_at_infinity', params={}, raises={}, result=OP,
                          ensures={'neutral': 'result._point._raw_pointer.g_pt == spec.ecgroup.neutral(%d)' % cid}, modifies=[]))
         reg.add(Contract(P + 'is_point_at_infinity', params={}, raises={},
-                         ensures={'neutral': 'bool(result) <==> (%s == spec.ecgroup.neutral(%d))' % (GP, cid)}, modifies=[]))
+                         ensures={'neutral': 'result <==> (%s == spec.ecgroup.neutral(%d))' % (GP, cid)}, modifies=[], result='bool'))
         # the x-only class refuses every two-coordinate curve
         reg.add(Contract(ECCXPOINT + '.__init__', params={'x': COORD + '|none', 'curve': names},
                          raises={'ValueError': ('iff', 'not spec.keys.is_montgomery(%d)' % cid)},
@@ -119,7 +119,7 @@ def registry(cid, tier='thorough'):
         reg.add(Contract(X + 'point_at_infinity', params={}, raises={}, result=OXP,
                          ensures={'neutral': 'result._point._raw_pointer.g_u == -1'}, modifies=[]))
         reg.add(Contract(X + 'is_point_at_infinity', params={}, raises={},
-                         ensures={'neutral': 'bool(result) <==> (%s == -1)' % GU}, modifies=[]))
+                         ensures={'neutral': 'result <==> (%s == -1)' % GU}, modifies=[], result='bool'))
     return reg
 
 
